@@ -26,7 +26,7 @@ def concretise(t, rng, variant):
         pass        # for the other protocols a tag list is just an object name with commas
     loc = {"none": None, "host": ["localhost", "Server.Example.COM", "host-1"], "emptyhost": [""], "ipv4": ["127.0.0.1", "10.0.0.255"],
            "v6": ["[::1]", "[FE80::1]", "[0:0:0:0:0:0:0:1]", "[fe80::1%2]"], "v6_double": ["[[::1]]"], "v6_bad": ["[::zz]", "[]", "[:::"],
-           "unix": ["./u:/tmp/Pyro/Worker.sock", "./u:sock", "./u:/tmp/pyro/worker.sock"], "unix_empty": ["./u:"], "unix_colon": ["./u:a:b"]}[t["loc"]]
+           "unix": ["./u:/tmp/Pyro/Worker.sock", "./u:/tmp/dir with blanks/sock  ", "./u:sock", "./u:sock\t", "./u:/tmp/pyro/worker.sock", "./u: lead"], "unix_empty": ["./u:"], "unix_colon": ["./u:a:b"]}[t["loc"]]
     if loc is None:
         return proto + ":" + obj
     loc = loc[variant % len(loc)]
